@@ -142,6 +142,9 @@ def run(ctx):
     probs = positions_frames(f, ADT)
     rep.check(not probs, 'R3', 'placements-are-cartesian', ADT, 'both operands of every energy() are Cartesian placements of the shape',
               'coordinate frames are mixed: %s' % probs)
+    # the periodic images really are the lattice translates of the placements (C14 obligations, necessary here)
+    from .C14 import import_into
+    import_into(ctx, 'LATTICE')
     ts = f.one(self_adt=ADT, trait='State', name='total_shapes')
     if rep.check(ts is not None, 'R1', 'anchor:total_shapes', ADT, 'found', 'total_shapes not found', 'anchor-lost'):
         ok, why = total_shapes_is_sum_of_multiplicities(f, ts)
